@@ -178,6 +178,18 @@ class BuiltinMixin:
         if isinstance(v, (VU, VOpaque)):
             f = z3.Function("ref_hasattr$" + n, U, B)
             return [(st, VBool(z3.And(U.is_ref(v.t), f(v.t))))]
+        if isinstance(v, VRef) and isinstance(st.deref(v), HObj) and st.deref(v).cls[0].startswith("liquid") and load.find_method(st.deref(v).cls[0], st.deref(v).cls[1], "__getattribute__") is not None:
+            # hasattr = getattr succeeds; only AttributeError is swallowed
+            out = []
+            for s, r in self.get_attr(st, v, n):
+                if isinstance(r, Raised):
+                    if self.is_subclass(r.exc.cls, "AttributeError"):
+                        out.append((s, VBool(z3.BoolVal(False))))
+                    else:
+                        out.append((s, r))
+                else:
+                    out.append((s, VBool(z3.BoolVal(True))))
+            return out
         if isinstance(v, VRef) and isinstance(st.deref(v), HObj):
             h = st.deref(v)
             if n in h.fields or n in h.field_sorts:
@@ -195,7 +207,7 @@ class BuiltinMixin:
                 return [(st, VBool(z3.BoolVal(hasattr(py, n))))]
         if isinstance(v, VFunc):
             # function attributes set by decorators (with_context, filter_async ...)
-            return self.bind(self.opaque_call(st, f"hasattr:{n}", [], pure=True), lambda s, r: [(s, VBool(self.truth(s, r)))])
+            return [(st, VBool(z3.BoolVal((id(v.node), n) in self.__dict__.get("_func_attrs", {}))))]
         raise Unsupported(f"hasattr on {type(v).__name__}")
 
     def b_getattr(self, st, args, kwargs):
@@ -212,6 +224,19 @@ class BuiltinMixin:
                 else:
                     out.append((s2, args[2]))
         return out
+
+    def b_object___getattribute__(self, st, args, kwargs):
+        ok, n = concrete(args[1])
+        if not ok:
+            raise Unsupported("object.__getattribute__ with symbolic name")
+        return self.get_attr(st, args[0], n, raw=True)
+
+    def b_functools_lru_cache(self, st, args, kwargs):
+        # memoisation is modelled as transparent here (purity / key faithfulness: C17)
+        return [(st, VBuiltin("identity_decorator"))]
+
+    def b_identity_decorator(self, st, args, kwargs):
+        return [(st, args[0])]
 
     def b_callable(self, st, args, kwargs):
         v = args[0]
